@@ -45,6 +45,7 @@ dest = m.group(1)
 crate = dest.split("/")[0]
 test_name = os.path.splitext(os.path.basename(dest))[0]
 res.update(demo_dest=dest, crate=crate, test=test_name)
+os.makedirs(os.path.dirname(os.path.join(repo, dest)), exist_ok=True)
 shutil.copy(demo_src, os.path.join(repo, dest))
 demo_cmd = "cargo test -p %s --test %s --offline 2>&1 | tail -40" % (crate, test_name)
 
